@@ -9,7 +9,10 @@ Model of /repo/src/handlers/grep.rs and /repo/src/handlers/ripgrep_json.rs (post
   Every regex is `^ path sep-part (.*) $` with a greedy path, so under leftmost-first
   semantics the match is: the *longest* prefix that is a well-formed path and is followed
   by a well-formed separator part (`longest`).  The pattern texts are pinned by hash
-  (`pinnedPatternHashes`, theorem `C16.patterns_pinned`).
+  (`pinnedPatternHashes`, theorem `C16.patterns_pinned`); the file-path pattern of each
+  plain-text variant is also regenerated in normal form (`pinnedPathShapes`,
+  `C16.path_shapes_pinned`) with its extension length bounds read per variant
+  (`Generated.Grep.extMaxNum` / `extMax` / `extMaxNoSpaces`, `C16.ext_bounds_documented`).
 * Sections (`make_style_sections`, `GrepLine::expand_tabs`) work on `List UInt8`: Rust
   slices by byte offsets and panics on out-of-range offsets, `start > end` and offsets
   inside a UTF-8 sequence.  Each of these is an explicit `Except` branch.
@@ -187,8 +190,12 @@ def Variant.ofName (s : String) : Option Variant :=
   else if s = "WithoutSeparatorCharacters" then some .noSep
   else none
 
+/-- The file-path pattern of each variant. The shapes are pinned (`pinnedPathShapes`); the
+extension length bounds are read from the source **per variant** (each from the match arm of
+`make_grep_line_regex` that serves it), so the model follows a change of one variant's bounds. -/
 def Variant.pathOk : Variant → List Char → Bool
-  | .extNum | .ext => extPathOk Generated.Grep.extMin Generated.Grep.extMax
+  | .extNum => extPathOk Generated.Grep.extMinNum Generated.Grep.extMaxNum
+  | .ext => extPathOk Generated.Grep.extMin Generated.Grep.extMax
   | .extNoSpaces => noSpacePathOk Generated.Grep.extMinNoSpaces Generated.Grep.extMaxNoSpaces
   | .noSep => noSepPathOk
 
@@ -581,6 +588,37 @@ def pinnedPatternHashesRepaired : List (String × String) :=
       (p.1, "3db9c68fff06f6b2701fc2294939b54138566e26295e7e6fe9badb7c4da52b6c")
     else p
 
+/-- The shapes the hand-written path predicates implement (`extPathOk`, `noSpacePathOk`,
+`noSepPathOk`; `{lo,hi}` and `[^LAST]` are the parts read from the source), per variant.
+`C16.path_shapes_pinned` compares them with the normal forms regenerated on every run. -/
+def pinnedPathShapes : List (String × String) :=
+  [("WithFileExtensionAndLineNumber", "([^:|\\ ][^:]*[^\\ ]\\.[^.\\ :=-]{lo,hi})"),
+   ("WithFileExtension", "([^:|\\ ][^:]*[^\\ ]\\.[^.\\ :=-]{lo,hi})"),
+   ("WithFileExtensionNoSpaces", "([^:|\\ ]+[^\\ ]\\.[^.\\ :=-]{lo,hi})"),
+   ("WithoutSeparatorCharacters", "([^:|\\ =-][^:=-]*[^LAST])")]
+
+/-- The separator parts `parseSep true` / `parseSep false` implement, per variant. -/
+def pinnedSepShapes : List (String × String) :=
+  [("WithFileExtensionAndLineNumber", "(?:(:([0-9]+):)|(-([0-9]+)-)|(=([0-9]+)=))"),
+   ("WithFileExtension", "(?:(:(?:([0-9]+):)?)|(-(?:([0-9]+)-)?)|(=(?:([0-9]+)=)?))"),
+   ("WithFileExtensionNoSpaces", "(?:(:(?:([0-9]+):)?)|(-(?:([0-9]+)-)?)|(=(?:([0-9]+)=)?))"),
+   ("WithoutSeparatorCharacters", "(?:(:(?:([0-9]+):)?)|(-(?:([0-9]+)-)?)|(=(?:([0-9]+)=)?))")]
+
+/-! ### Extension lengths the round-trip theorems promise
+
+The fragments below are stated with these *fixed* numbers, not with the regenerated bounds:
+a source edit that narrows a variant's `{lo,hi}` must not silently narrow what the theorems
+cover. `C16.ext_bounds_documented` ties each regenerated bound to its number here, and the
+round-trip proofs go through that tie. -/
+
+/-- shortest extension (every variant) -/
+def docExtMin : Nat := 1
+/-- longest extension read on a line with a line number, and on a line without one (third
+regex, which also admits blanks in the path): `.properties`, `.gitignore`, `.markdown` … -/
+def docExtMax : Nat := 10
+/-- longest extension the blank-free second regex reads -/
+def docExtMaxNoSpaces : Nat := 6
+
 def isSepChar (c : Char) : Bool := c == ':' || c == '-' || c == '='
 
 /-- The list starts with `.ext` (1 ≤ |ext| ≤ hi, chars of `[^.\ :=-]`) followed by a separator
@@ -628,9 +666,9 @@ def fragNumbered (p : Parsed) : Bool :=
   | none => false
   | some ds =>
     digitsOk ds && textKinds.contains p.kind &&
-    extPathOk Generated.Grep.extMin Generated.Grep.extMax p.path && !p.path.contains ':' &&
+    extPathOk docExtMin docExtMax p.path && !p.path.contains ':' &&
     codeOk p.code &&
-    (p.kind == .match_ || !hasNumLookAlike Generated.Grep.extMax p.code)
+    (p.kind == .match_ || !hasNumLookAlike docExtMax p.code)
 
 /-- Fragment B: unnumbered line, path with an extension of at most 6 characters and
 without blanks, `|` or `:`; the whole line has no `.ext`-sep-number-sep look-alike (this
@@ -638,11 +676,26 @@ includes the code starting with `12:` on a `:` line) and the code no `.ext`-sep 
 and no leading number. -/
 def fragUnnumbered (p : Parsed) : Bool :=
   p.digits.isNone && textKinds.contains p.kind &&
-  noSpacePathOk Generated.Grep.extMinNoSpaces Generated.Grep.extMaxNoSpaces p.path &&
+  noSpacePathOk docExtMin docExtMaxNoSpaces p.path &&
   !p.path.contains ':' && codeOk p.code &&
-  !hasNumLookAlike Generated.Grep.extMax (fmtPlain p) &&
-  !hasSepLookAlike Generated.Grep.extMax p.code &&
+  !hasNumLookAlike docExtMax (fmtPlain p) &&
+  !hasSepLookAlike docExtMax p.code &&
   (match p.kind.sep with | [s] => !startsWithNum s p.code | _ => false)
+
+/-- Fragment B2: unnumbered line whose path has an extension of 1–10 characters and may
+contain blanks (`[^:| ][^:]*[^ ].ext`, no `:`) — in particular the paths fragment B leaves
+out: extensions of 7–10 characters (`.markdown`, `.properties`) and blanks in directory or
+file names. Side conditions of B, and in addition the blank-free head of the path (up to its
+first blank) has no `.ext`-sep look-alike with a short (≤ 6) extension — there the second
+regex would end the path (`v1.2-rc/my file.rs`, see `C16.plain_unnumbered_blank_witness`). -/
+def fragUnnumberedExt (p : Parsed) : Bool :=
+  p.digits.isNone && textKinds.contains p.kind &&
+  extPathOk docExtMin docExtMax p.path &&
+  !p.path.contains ':' && codeOk p.code &&
+  !hasNumLookAlike docExtMax (fmtPlain p) &&
+  !hasSepLookAlike docExtMax p.code &&
+  (match p.kind.sep with | [s] => !startsWithNum s p.code | _ => false) &&
+  !hasSepLookAlike docExtMaxNoSpaces (p.path.takeWhile (· != ' '))
 
 /-- Fragment C: extension-less name free of `:`, `-`, `=` (and of `.`, not starting with
 `|` or a blank, not ending in a blank); the code has no `.ext`-sep look-alike; an
@@ -651,7 +704,7 @@ with a separator character. -/
 def fragNoExt (p : Parsed) : Bool :=
   textKinds.contains p.kind &&
   noSepPathOk p.path && p.path.all midOkNoSep && !p.path.contains '.' &&
-  codeOk p.code && !hasSepLookAlike Generated.Grep.extMax p.code &&
+  codeOk p.code && !hasSepLookAlike docExtMax p.code &&
   (match p.digits with
    | some ds => digitsOk ds
    | none =>
